@@ -157,6 +157,13 @@ package combinator
 //@ -- depth d (C01, C03: every alternative the element's parser returned is explored, none skipped)
 //@ ghostfun GhostTried(s *sequence, d int) int
 //@ pure func triedKept(s *sequence, upto int) bool = forall d int :: d < upto ==> GhostTried(s, d) == old(GhostTried(s, d))
+//@ -- GhostOperandNil(s, d) / GhostEmitted(s, d): the parser of element d returned no node (or there is no such
+//@ -- parser), and the activation exploring depth d handed a result to the result handler. Where the elements
+//@ -- matched so far are an accepted length, the end of the path is always emitted (C01, C04: longest-path rule --
+//@ -- an element that fails, wherever it fails, ends the sequence, it does not discard what was matched)
+//@ ghostfun GhostOperandNil(s *sequence, d int) bool
+//@ ghostfun GhostEmitted(s *sequence, d int) bool
+//@ pure func emitKept(s *sequence, upto int) bool = forall d int :: d < upto ==> GhostOperandNil(s, d) == old(GhostOperandNil(s, d)) && GhostEmitted(s, d) == old(GhostEmitted(s, d))
 
 //@ func (s *sequence) parse(depth int, ctx *parsley.Context, lrc data.IntMap, pos parsley.Pos, merge bool) (done bool)
 //@   flag slow
@@ -175,6 +182,13 @@ package combinator
 //@   ghost_at call:parseNext#1 GhostTried(s, depth) = GhostTried(s, depth) + 1
 //@   ghost_at call:parseNext#2 GhostTried(s, depth) = GhostTried(s, depth) + 1
 //@   ensures  [tried-kept;C01,C03] triedKept(s, depth)
+//@   ghost_entry GhostOperandNil(s, depth) = true
+//@   ghost_entry GhostEmitted(s, depth) = false
+//@   ghost_at call:Parse#1 GhostOperandNil(s, depth) = lastres[parsley.Node](0) == nil
+//@   ghost_at call:HandleResult#1 GhostEmitted(s, depth) = true
+//@   ghost_at call:HandleResult#2 GhostEmitted(s, depth) = true
+//@   ensures  [emit;C01,C04] GhostOperandNil(s, depth) && lenOf(s.lenCheck, depth) ==> GhostEmitted(s, depth)
+//@   ensures  [emit-kept;C01] emitKept(s, depth)
 //@   requires [L;C06] seqErrOK(s)
 //@   ensures  [L;C06] seqErrOK(s)
 //@   ghost_at call:Parse#1 when lastres[parsley.Error](2) != nil && lastres[parsley.Error](2).Pos() > parsley.GhostBest :: parsley.GhostBest = lastres[parsley.Error](2).Pos()
@@ -182,7 +196,7 @@ package combinator
 //@   ensures  [nodes-arr;C07] (array(s.nodes) == old(array(s.nodes)) && cap(s.nodes) == old(cap(s.nodes))) || fresh(s.nodes)
 //@   ensures  [result-arr;C07] s.result == nil || parsley.ListArr(s.result) == 0 || freshid(parsley.ListArr(s.result)) || (old(s.result) != nil && parsley.ListArr(s.result) == old(parsley.ListArr(s.result)) && parsley.NAlts(s.result) >= old(parsley.NAlts(s.result)) && parsley.NAlts(s.result) + parsley.ListSpare(s.result) == old(parsley.NAlts(s.result) + parsley.ListSpare(s.result)))
 //@   ensures  [alt-frame;C07] seqFrame(s)
-//@   assigns  GhostElemCp, GhostTried
+//@   assigns  GhostElemCp, GhostTried, GhostOperandNil, GhostEmitted
 //@   assigns  s.curtailingParsers, s.result, s.err, s.nodes, cells(s.nodes)
 //@   assigns  ite(s.result != nil && typeis[ast.NodeList](s.result), cells(s.result.(ast.NodeList), len(s.result.(ast.NodeList)), cap(s.result.(ast.NodeList))), nothing())
 //@   assigns  like parsley.Parser.Parse(nil, ctx, lrc, pos)
@@ -195,6 +209,7 @@ package combinator
 //@   invariant [active;C02] parsley.ActiveOK(lrc, pos)
 //@   invariant [cp-merged;C01] cpMono(s) && elemCpKept(s, depth) && (merge ==> cpMerged(s, depth))
 //@   invariant [all-alts;C01,C03] triedKept(s, depth) && GhostTried(s, depth) == old(GhostTried(s, depth)) + k
+//@   invariant [emit-kept] emitKept(s, depth) && !GhostOperandNil(s, depth)
 //@   invariant [L;C06] seqErrOK(s)
 //@   invariant [rest] forall j int :: k <= j && j < len(rest) ==> validSeqNode(rest[j]) && pos <= rest[j].ReaderPos()
 //@   invariant [alt-frame] seqFrame(s)
@@ -221,13 +236,14 @@ package combinator
 //@   requires [cp-merged;C01] merge ==> cpMerged(s, depth)
 //@   ensures  [cp-mono;C01] cpMono(s) && elemCpKept(s, depth+1)
 //@   ensures  [tried-kept;C01,C03] triedKept(s, depth+1)
+//@   ensures  [emit-kept;C01] emitKept(s, depth+1)
 //@   requires [L;C06] seqErrOK(s)
 //@   ensures  [L;C06] seqErrOK(s)
 //@   ensures  [pc1;C04] s.result != nil || s.err != nil || parsley.GhostCurtailed
 //@   ensures  [nodes-arr;C07] (array(s.nodes) == old(array(s.nodes)) && cap(s.nodes) == old(cap(s.nodes))) || fresh(s.nodes)
 //@   ensures  [result-arr;C07] s.result == nil || parsley.ListArr(s.result) == 0 || freshid(parsley.ListArr(s.result)) || (old(s.result) != nil && parsley.ListArr(s.result) == old(parsley.ListArr(s.result)) && parsley.NAlts(s.result) >= old(parsley.NAlts(s.result)) && parsley.NAlts(s.result) + parsley.ListSpare(s.result) == old(parsley.NAlts(s.result) + parsley.ListSpare(s.result)))
 //@   ensures  [alt-frame;C07] seqFrame(s)
-//@   assigns  GhostElemCp, GhostTried
+//@   assigns  GhostElemCp, GhostTried, GhostOperandNil, GhostEmitted
 //@   assigns  s.curtailingParsers, s.result, s.err, s.nodes, cells(s.nodes)
 //@   assigns  ite(s.result != nil && typeis[ast.NodeList](s.result), cells(s.result.(ast.NodeList), len(s.result.(ast.NodeList)), cap(s.result.(ast.NodeList))), nothing())
 //@   assigns  like parsley.Parser.Parse(nil, ctx, lrc, pos)
@@ -248,7 +264,7 @@ package combinator
 //@   ensures  [cp] data.Inv(cp)
 //@   ensures  [cp-first;C01] lookupOf(s.parserLookUp, 0) != nil ==> forall x int :: data.Member(data.ElemsOf(GhostElemCp(s, 0)), x) ==> data.Member(data.ElemsOf(cp), x)
 //@   ensures  [one] n != nil ==> err == nil
-//@   assigns  GhostElemCp, GhostTried
+//@   assigns  GhostElemCp, GhostTried, GhostOperandNil, GhostEmitted
 //@   assigns  s.curtailingParsers, s.result, s.err, s.nodes, cells(s.nodes)
 //@   assigns  like parsley.Parser.Parse(nil, ctx, lrc, pos)
 
